@@ -115,7 +115,9 @@ class GeometricMTF(SpotDiagram):
 
         mtf = []  # TODO: add option for polychromatic MTF
         for field_data in self.data:
-            xi, yi = field_data[0][0], field_data[0][1]
+            # the line spread is built from the rays that arrive
+            lit = field_data[0][2] > 0
+            xi, yi = field_data[0][0][lit], field_data[0][1][lit]
             mtf.append([self._compute_field_data(yi, self.freq, scale_factor),
                         self._compute_field_data(xi, self.freq, scale_factor)])
         return mtf, scale_factor
